@@ -294,7 +294,6 @@ Proof.
   destruct (Hs sn Hsn) as (es & rs & Hi & Hke & Hg & Hm).
   destruct (Hh Hhit) as (ed & Hid & Hkd & Hgd & Hle).
   exists t, p1, eb, mid, o, tmo, es, rs, ed. repeat split; auto; try congruence.
-  - lia.
   - assert (Hin : In ed pre). { rewrite Hpre. apply in_or_app. right. now right. }
     pose proof (times_run _ _ Ha _ Hin). destruct (step_clock _ _ _ He). lia.
   - apply (inflight_spec _ _ _ _ r Ha Hx). auto.
